@@ -470,7 +470,8 @@ func (vc *VC) appendStructElems(fr *frame, st *State, s, add Val, et types.Type,
 	for i := 0; i < sT.NumFields(); i++ {
 		ft := sT.Field(i).Type()
 		if _, nested := structOf(ft); nested {
-			vc.note("append of struct elements with nested struct fields: nested part unconstrained")
+			// nested struct fields: copy the appended element's nested fields; moved elements' nested parts stay unconstrained
+			vc.copyStructAt(st, vc.subRef(st, srcRef, et, i), vc.subRef(st, dstRef, et, i), ft)
 			continue
 		}
 		keys := map[string]bool{}
@@ -541,12 +542,9 @@ func (vc *VC) execCopy(fr *frame, st *State, c *ssa.CallCommon, args []Val, pos 
 		}
 		nc := p.App("arrcopy$"+typeKey(at), SInt, old, dst.Off, srcContent, n)
 		if aty, ok := at.Underlying().(*types.Array); ok {
-			if nv, isLit := n.IntVal(); isLit && nv.IsInt64() && nv.Int64() == aty.Len() {
-				if ov, isLit := dst.Off.IntVal(); isLit && ov.Sign() == 0 {
-					// the whole array is overwritten: its value is determined by the source bytes
-					nc = p.App("arrofbytes$"+typeKey(at), SInt, srcContent)
-				}
-			}
+			// when the whole array is overwritten its value is determined by the source bytes
+			whole := p.And(p.Eq(n, p.Int(aty.Len())), p.Eq(dst.Off, p.Int(0)))
+			nc = p.Ite(whole, p.App("arrofbytes$"+typeKey(at.Underlying()), SInt, srcContent), nc)
 		}
 		_ = full
 		st.cells[k] = scalar(nc)
@@ -1153,4 +1151,9 @@ func (vc *VC) callAlternatives(fr *frame, st *State, alts []FuncAlt, args []Val,
 	*st = *merged
 	st.defers = defers
 	return vc.mergeVal(conds, results, "funcvalue result")
+}
+
+// copyStructAt copies the struct of type t living at src to dst (field by field, nested structs included).
+func (vc *VC) copyStructAt(st *State, src, dst *Term, t types.Type) {
+	vc.storeStruct(st, dst, t, vc.loadStruct(st, src, t))
 }
